@@ -205,8 +205,9 @@ func c11Flag(e *Env, loop, try *ssa.Function) {
 			e.R.Fail(rule, "net/client.ReceivedMessageReader.TryToReplaceLoop:starts-loop", e.fpos(try), "no replacement loop is started")
 			return
 		}
-		ch, isCh := core.Resolve(core.Arg(goI, 1)).(*ssa.MakeChan)
-		fl, isFl := core.Resolve(core.Arg(goI, 2)).(*ssa.Call)
+		// the arguments may be read back from the fields they were just published into (same critical section)
+		ch, isCh := core.Resolve(core.ForwardFieldLoad(core.Arg(goI, 1))).(*ssa.MakeChan)
+		fl, isFl := core.Resolve(core.ForwardFieldLoad(core.Arg(goI, 2))).(*ssa.Call)
 		fresh := isCh && isFl && strings.HasSuffix(core.CalleeName(fl), "atomic.NewBool")
 		if fresh {
 			b, isB := core.ConstBool(core.Arg(fl, 0))
